@@ -369,6 +369,8 @@ def check_restrict_prefix(ctx, F):
     rb = F.fn('abe_policy::dimension::Dimension::restrict')
     tw = rb.calls(r'^std::iter::Iterator::take_while$')
     di = rb.calls(r'Dict::<K, V>::iter$')
+    if not tw and _restrict_prefix_loop(ctx, F, rb, di):
+        return
     ctx.check(len(tw) == 1 and len(di) >= 1, rb.key, 'prefix of the ordered dictionary',
               'Dimension::restrict no longer selects the lower attributes as the prefix (take_while) of the ordered dictionary: '
               'rank in a hierarchy is the position in the Dict, any other selection (by id, by filter) gives keys the wrong levels',
@@ -406,6 +408,58 @@ def check_restrict_prefix(ctx, F):
                       'compares the entry name with the captured target name', cb.where())
     ins = rb.calls(r'Dict::<K, V>::insert$')
     ctx.check(len(ins) == 1, rb.key, 'named attribute inserted', 'the named attribute itself is not added to the restriction', 'insert(attr_name, params)', rb.where())
+
+
+def _restrict_prefix_loop(ctx, F, rb, di):
+    """The same prefix written as a loop: `for (name, attr) in attributes.iter() { if name == target { break } new.insert(..) }`.
+    Returns False when restrict has no such loop (the caller then reports the missing take_while)."""
+    from ..trans import chain_source, CHAIN_FLAGS
+    loops = []
+    for nx in rb.calls(r'^std::iter::Iterator::next$'):
+        if not nx.args:
+            continue
+        src = chain_source(F, rb, nx.args[0])
+        fl = set(CHAIN_FLAGS[0])
+        sl = backward_slice(rb, [nx.args[0]], follow_mutarg=False)
+        if any(x in di for x in sl.calls):
+            loops.append((nx, fl, sl))
+    if len(loops) != 1:
+        return False
+    nx, fl, sl = loops[0]
+    ctx.check(not fl and not sl.has_call(*SELECTING), rb.key, 'prefix of the ordered dictionary',
+              'Dimension::restrict walks the hierarchy through %s: rank in a hierarchy is the position in the Dict, the lower attributes '
+              'are the ones met before the named one, in order' % (sorted(fl) or 'a selecting adaptor'), 'attributes.iter(), as it is', nx.where())
+    other = [c for c in rb.calls(*SELECTING)]
+    ctx.check(not other, rb.key, 'no other selection', 'Dimension::restrict also selects attributes through %s (line %d)' % (
+        other[0].name if other else '', other[0].ln if other else 0), 'the loop only', rb.where())
+    somes = [t_ for (_sb, t_) in lib.present_edges(rb, nx)]
+    ins = rb.calls(r'Dict::<K, V>::insert$')
+    in_loop = [c for c in ins if nx.b in rb.reach(c.b)]
+    after = [c for c in ins if c not in in_loop]
+    # the guard: a String comparison between the entry name and the target name
+    guards = []
+    for (c, te, fe) in eq_guards(rb):
+        if 'String' not in (c.self_ty or '') or nx.b not in rb.reach(c.b):
+            continue
+        sides = [copy_chain_sources(rb, a, through_calls=IDENTITY_CALLS) for a in c.args]
+        elem = any(r[0] == 'call' and r[1] is nx and [x for x in r[2] if not str(x).startswith('@')][-1:] == ['0'] for s in sides for r in s)
+        tgt = any(r[0] == 'param' and r[1] == 2 for s in sides for r in s)
+        if elem and tgt:
+            guards.append((c, te, fe))
+    okg = len(guards) == 1
+    if okg:
+        (c, te, fe) = guards[0]
+        # equal: leaves the loop for good; not equal: the only way to the insertion of the entry
+        okg = te is not None and fe is not None and nx.b not in rb.reach(te[1], avoid_edges=()) and \
+            all(rb.edge_dominates(fe, i.b) for i in in_loop) and bool(in_loop)
+    ctx.check(okg, rb.key, 'predicate: name != target name',
+              'the loop of Dimension::restrict does not copy exactly the entries met before the one whose NAME is the target (one '
+              'comparison of the entry name with the target name; equal leaves the loop, not equal inserts the entry): the restriction '
+              'must follow the order of the hierarchy, not properties of the attributes', 'if name == target { break } insert(..)', nx.where())
+    named = [c for c in after if len(c.args) > 1 and any(r[0] == 'param' and r[1] == 2 for r in copy_chain_sources(rb, c.args[1], through_calls=IDENTITY_CALLS))]
+    ctx.check(len(named) == 1, rb.key, 'named attribute inserted', 'the named attribute itself is not added to the restriction',
+              'insert(attr_name, params)', rb.where())
+    return True
 
 
 @rule('C02', 'restrict-prefix')
